@@ -46,6 +46,21 @@ _RAW = {
     "R7a|fixtures::resolver::<impl fixtures::FixtureDatabase>::get_completion_context_from_text|RangeFrom|`def_line`[start=len() of another string (`_`)]":
         "`def_line[name_start..]`: name_start is \"async def \".len() or \"def \".len(); def_line is the trimmed line selected by the "
         "backward scan whose condition is starts_with(\"def \") || starts_with(\"async def \"), and the async prefix is tested first",
+    "R7d|providers::code_action::<impl providers::Backend>::handle_code_action::{closure#0}|`func_line_content`":
+        "`func_line_content[param_start..paren_pos]`: evaluated only when `func_line_content[..paren_pos].contains('(')`; param_start "
+        "is find('(') + 1 on the whole line, i.e. the FIRST '(' which is at or before the one inside [..paren_pos], so find('(') < "
+        "paren_pos and param_start <= paren_pos",
+    "R7d|fixtures::string_utils::extract_word_at_position|`line`":
+        "`line[start_byte..end_byte]`: start_idx only decreases from `character`, end_idx only increases from `character + 1`, both "
+        "index the char_indices() vector whose byte offsets increase strictly; end_byte is the offset at end_idx > start_idx or line.len()",
+    "R7e|providers::references::<impl providers::Backend>::handle_references::{closure#0}|len() - `skipped_count`":
+        "`references.len() - skipped_count`: skipped_count is incremented at most once per element of the loop over `references`",
+    "R7e|fixtures::analyzer::<impl fixtures::FixtureDatabase>::get_char_position_from_offset|get_line_from_offset() - 1":
+        "`line_index[line - 1]`: get_line_from_offset returns binary_search's Ok(i) + 1 or Err(i); the line index always starts with "
+        "offset 0, so Err(0) would need offset < 0: line >= 1",
+    "R7e|fixtures::analyzer::<impl fixtures::FixtureDatabase>::visit_stmt|get_char_position_from_offset() - 1":
+        "`end_char - 1` (three sites, same shape): end_char is the column just after the closing quote of a string literal "
+        "(range.end() of an Expr::Constant(Str)), which is at least 1 on whatever line the literal ends",
     "R7c|fixtures::scanner::<impl fixtures::FixtureDatabase>::load_plugin_from_entry_point|expect on parent":
         "path.parent() of a path whose file_name() was just matched against Some(\"__init__.py\"): a path with a file name has a parent",
     "R7c|handle_fixtures_unused|unwrap on to_string_pretty":
